@@ -2,6 +2,7 @@ import Tftp.Props.C07
 import Tftp.Props.C08
 import Tftp.Props.C02
 import Tftp.Model.Net
+import Tftp.Lemmas.Net
 /-!
 # C04 — Loss tolerance
 
@@ -209,5 +210,22 @@ example : (netRun exSc exRc exFl 60 (netInit exSc exRc exFl [1, 2, 3, 4, 5])).s.
     (netRun exSc exRc exFl 60 (netInit exSc exRc exFl [1, 2, 3, 4, 5])).r.status = .ok ∧
     (netRun exSc exRc exFl 60 (netInit exSc exRc exFl [1, 2, 3, 4, 5])).r.win.file.content = [1, 2, 3, 4, 5] := by
   decide
+
+end Tftp
+
+namespace Tftp
+
+/-- **closed loop, safety under every fault schedule** (at most 65535 blocks): whatever datagrams are lost
+or duplicated in either direction, and however long the loop runs, the receiving side has accepted
+exactly blocks `1..j` of the sender's file, and if it ends successfully its file is byte-identical.
+(Liveness — that it *does* end successfully when fewer than 6 datagrams are lost — is what is enumerated
+against the real workers; the fault-free case is `c14_fault_free_transfer`.) -/
+theorem c04_closed_loop_safety (sc : SCfg) (rc : RCfg) (hb : 0 < sc.b) (hw1 : 1 ≤ sc.w) (hw : sc.w < 65536)
+    (hrb : rc.b = sc.b) (hrw : rc.w = sc.w) (fl : Faults) (f : Bytes) (hN : nblocks sc.b f ≤ 65535) (fuel : Nat) :
+    (netRun sc rc fl fuel (netInit sc rc fl f)).r.received =
+        blocksUpTo sc.b f (netRun sc rc fl fuel (netInit sc rc fl f)).r.received.length ∧
+    ((netRun sc rc fl fuel (netInit sc rc fl f)).r.status = .ok →
+        (netRun sc rc fl fuel (netInit sc rc fl f)).r.win.file.content = f) :=
+  closed_loop_safety sc rc hb hw1 hw hrb hrw fl f hN fuel
 
 end Tftp
